@@ -253,6 +253,7 @@ type LazyConn struct {
 	Respond func(req []byte) []byte
 	Src     *env.Src
 	Policy  func(max, off int) int
+	OnRead  func(p []byte, off int)
 	Writes  int
 }
 
@@ -265,6 +266,7 @@ func (l *LazyConn) Read(p []byte) (int, error) {
 	if l.Src == nil {
 		l.Src = env.NewSrc(l.Respond(l.Req.Bytes()))
 		l.Src.Policy = l.Policy
+		l.Src.OnRead = l.OnRead
 	}
 	return l.Src.Read(p)
 }
